@@ -439,7 +439,7 @@ var paramPhases = map[string]paramPhase{
 	// R2: pool 1 off its target weights (a halved threshold puts it in the bonus regime)
 	"C11": {[]string{"/elys.perpetual.", "/elys.amm.MsgUpdateParams"}, []string{"perp_open_long_t3_x5", "perp_close_full_t1", "swap_in_p1_usdc_atom_L", "join_p1_all_t1", "exit_p1_10pct_lp1", "perp_bot_close_all_at_3", "join_p1_single_atom_t2", "join_p1_single_usdc_t1"}, []string{"R1", "R2"}},
 	"C12": {[]string{"/elys.commitment.", "/elys.estaking.", "/elys.masterchef.MsgUpdateParams"}, []string{"commit_eden_lp1", "uncommit_eden_lp1", "unstake_elys_lp1", "vest_eden_lp1", "mc_claim_lp1", "unbond_lp2_half"}, nil},
-	"C13": {[]string{"/elys.masterchef.", "/elys.estaking."}, []string{"swap_in_p1_usdc_atom_L", "fee_tx_uatom", "mc_claim_lp1", "join_p2_big_t1", "exit_p2_half_lp1", "gap_1d"}, nil},
+	"C13": {[]string{"/elys.masterchef.", "/elys.estaking.", "/elys.amm.MsgUpdateParams"}, []string{"swap_in_p1_usdc_atom_L", "fee_tx_uatom", "mc_claim_lp1", "join_p2_big_t1", "exit_p2_half_lp1", "gap_1d", "join_p1_single_atom_t2", "join_p1_single_usdc_t1"}, nil},
 	"C15": {[]string{"/elys.commitment.", "/elys.tokenomics.", "/elys.estaking."}, []string{"vest_eden_lp1", "claim_vesting_lp1", "vest_now_lp1", "mc_claim_lp1", "gap_1d", "stake_elys_lp1"}, nil},
 }
 
